@@ -61,7 +61,7 @@ TraceNext ==
        [] E.ev = "Op"    -> TOp
        [] E.ev = "crash" -> Reject("C11-panic", <<E.text>>)
        [] E.ev = "End"   -> TEnd
-       [] E.ev = "skipped" -> l' = l + 1 /\ UNCHANGED <<bad, stats, tvarsM>>   \* not replayed: Close hung in five scenarios before
+       [] E.ev = "skipped" -> l' = E.nb /\ UNCHANGED <<bad, stats, tvarsM>>   \* not replayed: Close hung in five scenarios before
 TraceSpec == TraceInit /\ [][TraceNext]_tv
 NotStuck == (l <= Len(Tr)) => ENABLED TraceNext
 Done == l > Len(Tr)
